@@ -301,6 +301,28 @@ def generate(repo, outdir_lean, outdir_json, write_if_changed):
                             f"    Aoe.Props.CommitHolds.Holds {mod}.classes 4 {mid} [] obj s'.root :=\n"
                             f"  ⟨Aoe.Props.CommitCounts.commit_counts {mod}.classes 4 {mid} [] obj s s' tableSafe_{mod}_{cname} namesOk_{mod}_{cname} h,\n"
                             f"   Aoe.Props.CommitHolds.commit_holds {mod}.classes 4 {mid} [] obj s s' tableSafe_{mod}_{cname} h⟩\n")
+        # the whole reconstruct: what the sections hold of manager i after ALL managers were committed
+        for i, mid in enumerate(mids):
+            cname = g.class_defs[mid][0]
+            later_ok = cname != "MapManagerDE"        # the Option manager writes two retrievers of the Map manager as well
+            if not later_ok:
+                continue
+            laws_src.append(f"theorem mgrSafe_{mod}_{cname} : Aoe.Props.CommitAll.mgrSafe {mod}.classes {mod}.managers {i} = true := by decide")
+            laws_src.append(f"/-- after a whole reconstruct of a version {v} scenario, constructing the {cname} again returns what was saved -/\n"
+                            f"theorem construct_after_commitAll_{mod}_{cname} (objs : List Val) (s s' : Sections) (obj : Val)\n"
+                            f"    (h : commitAll {mod}.classes {mod}.managers objs s = .ok s') (ho : objs[{i}]? = some obj)\n"
+                            f"    (hwf : Aoe.Props.CommitHolds.WF {mod}.classes 4 {mid} [] obj) :\n"
+                            f"    constructObj {mod}.classes 4 {mid} [] s' = .ok (Aoe.Props.CommitHolds.normalize {mod}.classes 4 {mid} [] obj) :=\n"
+                            f"  Aoe.Props.CommitAll.construct_after_commitAll {mod}.classes {mod}.managers objs s s' h {i} mgrSafe_{mod}_{cname} {mid} obj rfl ho hwf\n")
+            laws_src.append(f"theorem mgrSafeC_{mod}_{cname} : Aoe.Props.CommitAll.mgrSafeC {mod}.classes {mod}.managers {i} = true := by decide")
+            laws_src.append(f"/-- after a whole reconstruct of a version {v} scenario every counted object list of the {cname}'s object tree is stored\n"
+                            f"with one record per object and a count equal to the number of objects -/\n"
+                            f"theorem counts_after_commitAll_{mod}_{cname} (objs : List Val) (s s' : Sections) (obj : Val)\n"
+                            f"    (h : commitAll {mod}.classes {mod}.managers objs s = .ok s') (ho : objs[{i}]? = some obj) :\n"
+                            f"    Aoe.Props.CommitCounts.Counts {mod}.classes 4 {mid} [] obj s'.root ∧\n"
+                            f"    Aoe.Props.CommitHolds.Holds {mod}.classes 4 {mid} [] obj s'.root :=\n"
+                            f"  ⟨Aoe.Props.CommitAll.commitAll_counts {mod}.classes {mod}.managers objs s s' h {i} mgrSafeC_{mod}_{cname} {mid} obj rfl ho,\n"
+                            f"   Aoe.Props.CommitAll.commitAll_holds {mod}.classes {mod}.managers objs s s' h {i} mgrSafe_{mod}_{cname} {mid} obj rfl ho⟩\n")
         # every class: each plain link reads back what was pushed (side conditions by `decide`); depth = number of index steps
         for cid, (cname, links) in enumerate(g.class_defs):
             depth = max([m2.group(1).count(".hidx") for l2 in links for m2 in [re.search(r"\.(?:plain|objs) \[([^\]]*)\]", l2)] if m2] + [0])
@@ -371,7 +393,7 @@ def generate(repo, outdir_lean, outdir_json, write_if_changed):
     agg += "\n".join(f"  {'if' if i == 0 else 'else if'} v == \"{v}\" then some ({m}.classes, {m}.managers, {m}.secNames)" for i, (v, m) in enumerate(mods))
     agg += "\n  else none\nend Aoe.Generated\n"
     fn = os.path.join(outdir_lean, "MgrTables.lean"); write_if_changed(fn, agg); files.append(fn)
-    laws = ("import Aoe.Props.Links\nimport Aoe.Props.CommitFrame\nimport Aoe.Props.CommitHolds\nimport Aoe.Props.CommitCounts\nimport Aoe.Generated.MgrTables\n/-! GENERATED by tools/gen_mgr.py – `commit ∘ construct = id` instantiated at every generated class "
+    laws = ("import Aoe.Props.Links\nimport Aoe.Props.CommitFrame\nimport Aoe.Props.CommitHolds\nimport Aoe.Props.CommitCounts\nimport Aoe.Props.CommitAll\nimport Aoe.Generated.MgrTables\n/-! GENERATED by tools/gen_mgr.py – `commit ∘ construct = id` instantiated at every generated class "
             "whose links are plain value links without refresh actions (side condition closed by `decide`). -/\n"
             "namespace Aoe.Generated.MgrLaws\nopen Aoe Aoe.Codec Aoe.Lens Aoe.Commit Aoe.Generated\n\n" + "\n".join(laws_src) + "\nend Aoe.Generated.MgrLaws\n")
     fn = os.path.join(outdir_lean, "MgrLaws.lean"); write_if_changed(fn, laws); files.append(fn)
